@@ -111,7 +111,14 @@ RULE = ('crystals built from literal fractional coordinates: fcc (setting f and 
         'Python bool, as 1 / 0 or as numpy boolean (flag_form), the truth value deciding (also larger than the '
         'system) plus probe widths 1e-5 on either side of '
         'the depth of an atom below every face of the region / of an atom\'s distance from the line / of each surface-layer '
-        'edge, linear or elastic arrays, cutoffs 0.2 .. 1.2, with / without return_base_system; disregistry with planepos = '
+        'edge, linear or elastic arrays, cutoffs 0.2 .. 1.2, with / without return_base_system; EXACT SURFACE TIES: screw '
+        'dislocations along a cell axis of orthogonal cells (cubic p/i/f, B2, L12, tetragonal, orthorhombic c/f) with small '
+        'dyadic lattice constants, every sign and m/n assignment (axis-aligned rotated cell, displacement along the line only: '
+        'coordinates across the line stay bit-exact), monopole box / cylinder and periodic array, boundary widths equal to '
+        'the exact depth of atomic rows below each face / to (distance line-face) - (distance of an atom from the line) for '
+        'atoms on the axes of the cross-section and Pythagorean pairs, so that atoms lie bit-exactly ON the surface of the '
+        'region; there the re-typing is compared with the exact rational oracle without any margin (on the surface = not '
+        'outside); disregistry with planepos = '
         'default / centre / another point of the same gap (oracle) and anywhere incl. on an atomic plane (correspondence). '
         'distinct = distinct (crystal, lattice parameters, slip system, m, n, configuration); non-trivial = the generator '
         'returned a system (refusals are counted separately)')
@@ -2956,13 +2963,100 @@ def _region_outside(np, d, base_box, width, shape, pos, exact_limit=700):
     return out, marg, {'R0': R0, 'r': rr, 'positive': bool(R02 > w * w)}
 
 
-def _probe_cfgs(np, rng, d, base, disl, cfg, shape, sc, nmax=8):
+_GRID = 64.0            # coordinates that are whole multiples of 2^-6 ...
+_GMAX = 1024.0          # ... and at most 2^10 in magnitude: products of two and sums of such products are exact doubles
+
+
+def _on_grid(np, x):
+    x = np.asarray(x, dtype=float)
+    with np.errstate(invalid='ignore', over='ignore'):
+        return np.isfinite(x) & (np.abs(x) <= _GMAX) & (x * _GRID == np.rint(x * _GRID))
+
+
+def _exact_atoms(np, d, base_box, pos, width, shape):
+    """The atoms for which the question 'outside the stated region?' involves no rounding at all, whoever evaluates it in
+    doubles: the reference box is axis aligned (every box vector along one Cartesian axis), its entries, its origin and
+    the width are small dyadic numbers, (cylinder) the solution's m and n are Cartesian unit vectors, and the atom's
+    coordinates across the faces that matter (the two directions across the line; the cut direction for arrays) are small
+    dyadic numbers as well: then face normals are exact unit vectors, the shifted face points, depths, the distance of the
+    line to the faces, squared distances from the line and their square roots (where representable) are all exact, so an
+    atom EXACTLY on the surface of the region is decided by the comparison alone (on the surface = not outside).
+    -> boolean mask over the atoms, or None when the geometry is not of that kind."""
+    try:
+        V = np.asarray(base_box.vects, dtype=float)
+        O = np.asarray(base_box.origin, dtype=float)
+        w = float(width)
+    except Exception:  # noqa
+        return None
+    if not (np.all(_on_grid(np, V)) and np.all(_on_grid(np, O)) and bool(_on_grid(np, w))):
+        return None
+    cols = []
+    for i in range(3):
+        nz = np.flatnonzero(V[i])
+        if len(nz) != 1:
+            return None
+        cols.append(int(nz[0]))
+    if sorted(cols) != [0, 1, 2]:
+        return None
+    line = d.lineindex
+    dirs = [d.cutindex] if shape == 'array' else [i for i in range(3) if i != line]
+    if shape == 'cylinder':
+        for v in (d.dislsol.m, d.dislsol.n):
+            v = np.asarray(v, dtype=float)
+            if v.shape != (3,) or np.count_nonzero(v) != 1 or abs(v).max() != 1.0:
+                return None
+    pos = np.asarray(pos, dtype=float)
+    return np.all(_on_grid(np, pos[:, [cols[i] for i in dirs]]), axis=1)
+
+
+def _tie_widths(np, rng, d, base, disl, shape, nmax=4):
+    """boundary widths for which atoms lie EXACTLY on the surface of the region: the exact depth of an atom below each face
+    (box / array), the exact difference between the distance of the line to the nearest face and an atom's distance from
+    the line where that distance is a representable number (atoms on the axes of the cross-section and Pythagorean pairs
+    (y, z), the latter preferred).  Only for atoms / geometries where nothing is rounded (_exact_atoms)."""
+    pos = np.asarray(disl.atoms.pos, dtype=float)
+    mask = _exact_atoms(np, d, base.box, pos, 0.0, shape)
+    if mask is None or not mask.any():
+        return []
+    widths = []
+    if shape in ('box', 'array'):
+        _o, _m, ex = _region_outside(np, d, base.box, 1.0, shape, pos, exact_limit=0)
+        nearest, depth = ex['nearest'], ex['depth']
+        faces = sorted(set(nearest.tolist()))
+        rng.shuffle(faces)
+        for f in faces:
+            ids = np.where((nearest == f) & mask & (depth > 0.0))[0]
+            if len(ids):
+                vals = sorted(set(float(x) for x in depth[ids]))
+                widths.append(vals[rng.randrange(min(len(vals), 5))])
+    else:
+        _o, _m, ex = _region_outside(np, d, base.box, 0.0, shape, pos, exact_limit=0)
+        V = np.asarray(base.box.vects, dtype=float)
+        cols = [int(np.flatnonzero(V[i])[0]) for i in range(3) if i != d.lineindex]
+        y, z = pos[:, cols[0]], pos[:, cols[1]]
+        r2 = y * y + z * z
+        r = np.sqrt(r2)
+        R0 = float(ex['R0'])
+        ok = mask & (r * r == r2) & _on_grid(np, r) & (r < R0) & bool(_on_grid(np, R0))
+        pyth = sorted(set(float(x) for x in r[ok & (y != 0.0) & (z != 0.0)]))
+        axes = sorted(set(float(x) for x in r[ok & ((y == 0.0) | (z == 0.0))]))
+        rng.shuffle(pyth)
+        rng.shuffle(axes)
+        for x in pyth[:max(1, nmax - 1)] + axes[:1]:
+            widths.append(R0 - x)
+    return [w for w in widths if w > 0.0][:nmax]
+
+
+def _probe_cfgs(np, rng, d, base, disl, cfg, shape, sc, nmax=8, ties=False):
     """boundary widths placed immediately on either side of the depth of an atom below each face of the region (box /
     array) or of an atom's distance from the line (cylinder): the re-typing as a function of the width changes exactly
-    there, so every face of the region is located to `eps` (a displaced, tilted or shared face shows as one atom)."""
+    there, so every face of the region is located to `eps` (a displaced, tilted or shared face shows as one atom).
+    ties: in geometries where nothing is rounded, also the widths that put atoms exactly ON the surface (_tie_widths)."""
     pos = np.asarray(disl.atoms.pos)
     eps = 1e-5 * sc
     widths = []
+    if ties:
+        widths += _tie_widths(np, rng, d, base, disl, shape, nmax=3)
     if shape in ('box', 'array'):
         _o, _m, ex = _region_outside(np, d, base.box, 1.0, shape, pos, exact_limit=0)
         nearest, depth = ex['nearest'], ex['depth']
@@ -3331,12 +3425,32 @@ def _check_boundary(ctx, np, d, cfg, base, disl, shape, width, info, label, key)
                         f'face, yet a system was returned', info)
             return False
         flagged = ta != tb
-        bad = np.where((flagged != out) & (marg > 1e-7 * sc))[0]
+        decided = marg > 1e-7 * sc
+        # atoms whose position relative to the region involves no rounding (axis-aligned dyadic geometry) are decided
+        # whatever their margin: an atom exactly ON the surface of the region is not outside it
+        exact = _exact_atoms(np, d, base.box, np.asarray(disl.atoms.pos), width, shape)
+        if exact is not None:
+            decided = decided | exact
+            ts = ctx.extra.setdefault('c13_surface_ties', {'configurations': 0, 'atoms_on_surface': 0})
+            nt_ = int(np.count_nonzero(exact & (marg == 0.0)))
+            ts['atoms_on_surface'] += nt_
+            ts['configurations'] += 1 if nt_ else 0
+            ts[shape] = ts.get(shape, 0) + nt_
+            if shape == 'cylinder' and nt_:
+                # surface atoms off the axes of the cross-section (Pythagorean pairs)
+                pp_ = np.asarray(disl.atoms.pos)[exact & (marg == 0.0)]
+                lc_ = int(np.flatnonzero(np.asarray(base.box.vects)[d.lineindex])[0])
+                ac_ = [q for q in range(3) if q != lc_]
+                ts['cylinder_pythagorean'] = ts.get('cylinder_pythagorean', 0) + \
+                    int(np.count_nonzero((pp_[:, ac_[0]] != 0.0) & (pp_[:, ac_[1]] != 0.0)))
+        bad = np.where((flagged != out) & decided)[0]
         if len(bad):
             i = int(bad[0])
+            onsurf = exact is not None and bool(exact[i]) and marg[i] == 0.0
             ctx.violate(key + ':boundary', f'{label}: atom {i} at {np.asarray(disl.atoms.pos)[i].tolist()} is '
-                        f'{"outside" if out[i] else "inside"} the {shape} region of width {width} (by {marg[i]:.3g}) but '
-                        f'{"is" if flagged[i] else "is not"} re-typed ({len(bad)} atoms)', info)
+                        + (f'exactly on the surface of the {shape} region of width {width} (not outside it)' if onsurf else
+                           f'{"outside" if out[i] else "inside"} the {shape} region of width {width} (by {marg[i]:.3g})')
+                        + f' but {"is" if flagged[i] else "is not"} re-typed ({len(bad)} atoms)', info)
             return False
         if tuple(disl.symbols) != tuple(base.symbols) * 2:
             ctx.violate(key + ':symbols', f'{label}: symbols {disl.symbols}', info)
@@ -3419,7 +3533,7 @@ def _oracle_mono(ctx, np, case, raw, ucell, d, cfg, res, info, label):
     if not _check_boundary(ctx, np, d, cfg, base, disl, shape, width, info, label, key):
         return
     if not cfg.get('probe'):
-        for pc in _probe_cfgs(np, ctx.rng, d, base, disl, cfg, shape, sc):
+        for pc in _probe_cfgs(np, ctx.rng, d, base, disl, cfg, shape, sc, nmax=10, ties=True):
             pres = run_config(d, pc)
             pinfo = dict(info, cfg=pc)
             plab = label.rsplit(" {'kind'", 1)[0] + ' ' + str(pc)
@@ -3600,6 +3714,7 @@ def _oracle_array(ctx, np, case, raw, ucell, d, cfg, res, info, label):
             if len(cand):
                 t = float(cand[ctx.rng.randrange(min(len(cand), 6))])
                 ws += [t - eps, t + eps]
+        ws += _tie_widths(np, ctx.rng, d, base, disl, 'array', nmax=2)      # atomic planes exactly ON the region's faces
         for w_ in ws:
             pc = {k: v for k, v in cfg.items() if k != 'boundaryscale'}
             pc['boundarywidth'] = float(w_)
@@ -3613,7 +3728,7 @@ def _oracle_array(ctx, np, case, raw, ucell, d, cfg, res, info, label):
                 return
             _oracle_array(ctx, np, case, raw, ucell, d, pc, pres, pinfo, plab)
     elif not cfg.get('probe'):
-        for pc in _probe_cfgs(np, ctx.rng, d, base, disl, cfg, 'array', sc, nmax=4):
+        for pc in _probe_cfgs(np, ctx.rng, d, base, disl, cfg, 'array', sc, nmax=6, ties=True):
             pres = run_config(d, pc)
             pinfo = dict(info, cfg=pc)
             plab = label.rsplit(" {'kind'", 1)[0] + ' ' + str(pc)
@@ -3864,6 +3979,115 @@ def _search_case(ctx, case, raw, ncfg, stats):
             _oracle_array(ctx, np, case, raw, ucell, d, cfg, res, cinfo, lab)
 
 
+# ----------------------------------------------------------------------------------------
+# atoms EXACTLY on the surface of the boundary region
+# ----------------------------------------------------------------------------------------
+# crystals whose cell vectors are mutually perpendicular, with lattice constants that are small dyadic numbers
+TIE_CRYSTALS = {
+    'bcc': [dict(a=2.0), dict(a=4.0), dict(a=3.0), dict(a=2.5), dict(a=1.0)],
+    'fcc': [dict(a=2.0), dict(a=4.0), dict(a=3.5), dict(a=8.0)],
+    'sc': [dict(a=1.0), dict(a=2.0), dict(a=1.5), dict(a=0.5)],
+    'b2': [dict(a=2.0), dict(a=3.0)],
+    'l12': [dict(a=4.0), dict(a=2.0)],
+    'bcc_p': [dict(a=2.0), dict(a=3.0)],
+    'fcc_p': [dict(a=4.0)],
+    'bct': [dict(a=2.0, c=3.0), dict(a=3.0, c=3.75), dict(a=4.0, c=2.5)],
+    'ortho_c': [dict(a=2.0, b=3.0, c=2.5), dict(a=3.0, b=4.5, c=3.75)],
+    'ortho_f': [dict(a=2.0, b=3.0, c=4.0)],
+}
+
+
+def _tie_cases(rng, n):
+    """screw dislocations along a cell axis of an orthogonal cell, slip plane another axis plane, Burgers vector one
+    (conventional) lattice period along the line, every sign, every m / n assignment: the rotated cell is axis aligned
+    and the displacement is purely along the line, so the coordinates across the line stay bit-exact dyadic numbers."""
+    out = []
+    names = list(TIE_CRYSTALS)
+    for k in range(n):
+        name = names[k % len(names)] if k < len(names) else rng.choice(names)
+        lp = rng.choice(TIE_CRYSTALS[name])
+        i = rng.randrange(3)
+        j = rng.choice([q for q in range(3) if q != i])
+        xi, hkl, b = [0, 0, 0], [0, 0, 0], [0, 0, 0]
+        xi[i] = rng.choice([1, -1])
+        hkl[j] = rng.choice([1, -1])
+        b[i] = rng.choice([1, -1])
+        m, nn = rng.choice(MN)
+        out.append({'crystal': name, 'lp': lp, 'burgers': [str(x) for x in b], 'xi': xi, 'hkl': hkl,
+                    'character': 'axis-screw', 'm': m, 'n': nn, 'hex4': False})
+    return out
+
+
+def _search_ties(ctx, ncases, stats):
+    """the clause 're-types as boundary exactly those atoms outside the stated region' where it is decided by a
+    comparison alone: atomic rows bit-exactly ON the faces of the box region, on the cylinder (atoms on the axes of the
+    cross-section and Pythagorean pairs) and on the faces of the array's boundary region.  The width is the exact depth /
+    distance of atoms of the generated system itself; on the surface = not outside (exact rational oracle)."""
+    np = _np()
+    rng = ctx.rng
+    for raw in _tie_cases(rng, ncases):
+        case = _fix_case(raw)
+        info = {'op': 'search', 'case': _sample(raw)}
+        label = f'{raw["crystal"]} {raw["lp"]} b={raw["burgers"]} xi={raw["xi"]} hkl={raw["hkl"]} m={raw["m"]} n={raw["n"]}'
+        canon = ('ties', raw['crystal'], tuple(map(str, raw['burgers'])), tuple(raw['xi']), tuple(raw['hkl']), raw['m'],
+                 raw['n'], tuple(sorted(raw['lp'].items())))
+        try:
+            ucell, d = make_disl(case)
+        except Exception as e:  # noqa
+            stats['ties_refused'] = stats.get('ties_refused', 0) + 1
+            ctx.stats.case('search:ties:refused', canon, nontrivial=False)
+            if not isinstance(e, (ValueError, AssertionError)):
+                ctx.violate('cells:exception', f'{label}: Dislocation(...) raised {type(e).__name__}: {str(e)[:120]}', info)
+            continue
+        line = d.lineindex
+        nat = d.rcell.natoms
+        for kind, shape in (('mono', 'box'), ('mono', 'cylinder'), ('array', 'array')):
+            sm = [0, 0, 0]
+            big_ = rng.choice([6, 8, 8, 10, 12, 16]) if nat <= 4 else rng.choice([4, 6, 8])
+            for q in range(3):
+                sm[q] = rng.choice([1, 1, 2]) if q == line else rng.choice([big_, big_, rng.choice([4, 6, 8])])
+            cfg = {'kind': kind, 'sizemults': sm, 'boundarywidth': rng.choice([0.5, 1.0, 1.5, 2.0, 0.25, 3.0])}
+            if kind == 'mono':
+                cfg['boundaryshape'] = shape
+            else:
+                cfg['linear'] = rng.random() < 0.5
+            if len(d.shifts) > 1 and rng.random() < 0.5:
+                cfg['shiftindex'] = rng.randrange(len(d.shifts))
+            else:
+                cfg['shiftindex'] = 0
+            if rng.random() < 0.3:
+                c = [0.0, 0.0, 0.0]
+                c[d.motionindex] = rng.choice([0.25, -0.5, 1.0, 0.125])
+                cfg['center'] = c
+            cfg['flag_form'] = rng.choice(FLAG_FORMS)
+            res = run_config(d, cfg)
+            cinfo = dict(info, cfg=cfg)
+            lab = label + ' ' + str(cfg)
+            ctx.stats.case('search:ties:' + shape, canon + (tuple(sorted((a, str(b)) for a, b in cfg.items())),),
+                           nontrivial=(res[0] == 'ok'))
+            if res[0] == 'err':
+                stats['ties_refusals'] = stats.get('ties_refusals', 0) + 1
+                if res[1] != 'solver' and not (res[1] == 'assert' and shape == 'cylinder'):
+                    _oracle_refusal(ctx, np, d, cfg, res, ucell, cinfo, lab)
+                continue
+            base, disl, d2 = res[1], res[2], res[3]
+            width = float(cfg['boundarywidth'])
+            if not _check_boundary(ctx, np, d2, cfg, base, disl, shape, width, cinfo, lab, kind):
+                return
+            for w_ in _tie_widths(np, rng, d2, base, disl, shape, nmax=4):
+                pc = dict(cfg, boundarywidth=float(w_), probe=True)
+                pres = run_config(d2, pc)
+                pinfo = dict(info, cfg=pc)
+                plab = label + ' ' + str(pc)
+                stats['ties_probes'] = stats.get('ties_probes', 0) + 1
+                if pres[0] == 'err':
+                    ctx.violate(kind + ':probe-refusal', f'{plab}: refused ({pres[1:3]}) although the same configuration '
+                                f'with boundarywidth {width} was generated', pinfo)
+                    return
+                if not _check_boundary(ctx, np, pres[3], pc, pres[1], pres[2], shape, float(w_), pinfo, plab, kind):
+                    return
+
+
 def search(ctx, broken):
     rng = ctx.rng
     big = broken or ctx.thorough
@@ -3876,6 +4100,7 @@ def search(ctx, broken):
             if (m, n) != (c['m'], c['n']):
                 extra.append(dict(c, m=m, n=n))
     stats = {'mono': 0, 'array': 0, 'refusals': 0, 'refused': 0, 'solver_refused': 0}
+    _search_ties(ctx, 80 if big else 24, stats)
     for raw in cases + extra:
         _search_case(ctx, _fix_case(raw), raw, 4 if big else 2, stats)
     ctx.extra['c13_search'] = stats
